@@ -72,7 +72,7 @@ impl Kind {
 
                                 let min_index = array
                                     .largest_known_index()
-                                    .map_or(0, |x| x + 1 - negative_index);
+                                    .map_or(0, |x| (x + 1).saturating_sub(negative_index));
 
                                 if let Some(largest_known_index) = array.largest_known_index() {
                                     for i in min_index..=largest_known_index {
